@@ -51,13 +51,24 @@ fn inverse(p: &[usize]) -> Vec<usize> {
 
 fn check<const N: usize>(case: &Case, obs: &mut Obs) -> PropResult {
 	let m = &case.m;
-	let q = to_quill::<N, Ns>(m, case.order).map_err(|e| format!("harness: {e:#}"))?;
+	let mut q = to_quill::<N, Ns>(m, case.order).map_err(|e| format!("harness: {e:#}"))?;
+	// the comment of the set itself must come through untouched (the plain model has no slot for it)
+	q.javadoc = Some(quill::tree::mappings::JavadocMapping("about this set\nsecond line".to_string()));
 	let mut any_renaming_desc = false;
 	for perm in permutations(N) {
 		let names: Vec<&str> = perm.iter().map(|&o| m.ns[o].as_str()).collect();
 		let arr: [&str; N] = names.clone().try_into().unwrap();
 		let expected = refops::reorder(m, &perm);
 		let got = q.reorder::<Ms>(arr);
+		if let Ok(r) = &got {
+			if r.javadoc != q.javadoc {
+				return Err(format!("reorder to {names:?} changed the comment of the set to {:?}", r.javadoc));
+			}
+		}
+		let got = got.map(|mut r| {
+			r.javadoc = None;
+			r
+		});
 		match (&expected, got) {
 			(Err(why), Ok(r)) => {
 				let r = from_quill(&r).map(|m| format!("{m:?}")).unwrap_or_else(|e| format!("<inconsistent: {e:#}>"));
